@@ -317,10 +317,18 @@ def run(repo: Repo, tier: str) -> Report:
                 and all("arange" in ast.unparse(e) for e in st.value.elts):
             tup = (st.targets[0].id, [Normaliser().norm(e).key() for e in st.value.elts])
     dc = lc_cases(d.node, "lc", "llas")
+    stored_into = {t.value.id for st in ast.walk(d.node) if isinstance(st, (ast.Assign, ast.AugAssign))
+                   for t in (st.targets if isinstance(st, ast.Assign) else [st.target])
+                   if isinstance(t, ast.Subscript) and isinstance(t.value, ast.Name)}
     dn = {}
     for c, v in dc.items():
         if v and tup and v.startswith(tup[0] + "[") and v.endswith("]"):
             dn[c] = tup[1][int(v[len(tup[0]) + 1:-1])]
+        elif v and v.isidentifier() and v not in stored_into:
+            # a named grid (`llas_hi = np.arange(...)` before the pixel loops): one plain assignment, never stored into
+            from ..rules import resolve_local
+            rv = resolve_local(d.node, ast.Name(id=v, ctx=ast.Load()))
+            dn[c] = Normaliser().norm(rv).key() if not isinstance(rv, ast.Name) else v
         else:
             dn[c] = v
     for c in ("gt", "le", "un"):
